@@ -25,13 +25,21 @@ fn fixtures() {
 
 fn main() {
     let argv: Vec<String> = std::env::args().collect();
-    if argv.len() < 3 && !(argv.len() == 2 && argv[1] == "fixtures") {
+    if argv.len() < 3 && !(argv.len() >= 2 && (argv[1] == "fixtures" || argv[1] == "oracle-server")) {
         eprintln!("usage: vcheck <Cxx> <quick|thorough> [--replay FILE]");
         std::process::exit(2);
     }
     if argv[1] == "fixtures" {
         fixtures();
         return;
+    }
+    if argv[1] == "stress" {
+        std::process::exit(props::c18::stress_main(&argv[2..]));
+    }
+    if argv[1] == "oracle-server" {
+        let base = argv.get(2).map(std::path::PathBuf::from).unwrap_or_else(props::c19::worlds_base);
+        sudachi_verif::engine::install_panic_hook();
+        std::process::exit(props::c19::oracle_server(&base));
     }
     let id = argv[1].as_str();
     let tier = match argv[2].as_str() {
@@ -71,6 +79,44 @@ fn main() {
         "C15" => run_property(&props::c15::C15, &args),
         "C16" => run_property(&props::c16::C16, &args),
         "C17" => run_property(&props::c17::C17, &args),
+        "C18" => run_property(&props::c18::C18, &args),
+        "C19" => {
+            // replay files of the Python half are handed to the Hypothesis driver
+            if let Some(path) = &args.replay {
+                let v: Option<serde_json::Value> = std::fs::read_to_string(path).ok().and_then(|t| serde_json::from_str(&t).ok());
+                let is_py = v.as_ref().map(|v| v.get("case").unwrap_or(v).get("python").is_some()).unwrap_or(false);
+                if is_py {
+                    let root = sudachi_verif::engine::verif_root();
+                    let seed_env = std::env::var("VERIF_SEED").ok().and_then(|s| s.trim().parse::<i64>().ok()).unwrap_or(0) as u64;
+                    if let Err(e) = props::c19::write_worlds(&props::c19::worlds_base(), seed_env) {
+                        println!("cannot prepare worlds: {}", e);
+                        std::process::exit(2);
+                    }
+                    let st = std::process::Command::new("python3-vt")
+                        .arg(root.join("py").join("c19_check.py"))
+                        .arg("--lib").arg(root.join("work").join("pylib"))
+                        .arg("--worlds").arg(props::c19::worlds_base())
+                        .arg("--oracle").arg(std::env::current_exe().unwrap())
+                        .arg("--out").arg(root.join("work").join("c19-python-replay.json"))
+                        .arg("--replays").arg(root.join("replays").join("C19"))
+                        .arg("--replay").arg(path)
+                        .status();
+                    match st {
+                        Ok(s) if s.success() => std::process::exit(0),
+                        Ok(s) if s.code() == Some(1) => {
+                            println!("VIOLATION property=C19 replay={}", path.display());
+                            std::process::exit(1)
+                        }
+                        _ => {
+                            println!("FAIL clause=python:interpreter-crash");
+                            println!("VIOLATION property=C19 replay={}", path.display());
+                            std::process::exit(1)
+                        }
+                    }
+                }
+            }
+            run_property(&props::c19::C19, &args)
+        }
         "C20" => run_property(&props::c20::C20, &args),
         x => {
             eprintln!("unknown property {}", x);
